@@ -2,7 +2,7 @@
    range.  Only the property theorems, each closed by [exact]; proofs live in
    Midi/MidiProofs.v, the model in Midi/MidiModel.v, the Spec in Midi/MidiSpec.v. *)
 From Coq Require Import List ZArith QArith.
-From RtoscV Require Import Midi.MidiModel Midi.MidiSpec Midi.MidiProofs Midi.MidiFloat Midi.MidiProto Midi.MidiNrt Midi.MidiSilent Midi.MidiInv Midi.MidiRefine Midi.MidiRound Midi.MidiValues Midi.MidiCapacity Midi.MidiCross Midi.MidiRegress Midi.MidiHandshake.
+From RtoscV Require Import Midi.MidiModel Midi.MidiSpec Midi.MidiProofs Midi.MidiFloat Midi.MidiProto Midi.MidiNrt Midi.MidiSilent Midi.MidiInv Midi.MidiRefine Midi.MidiRound Midi.MidiValues Midi.MidiCapacity Midi.MidiCross Midi.MidiRegress Midi.MidiHandshake Midi.MidiTotal.
 Import ListNotations.
 Local Open Scope Z_scope.
 
@@ -96,7 +96,9 @@ Proof. exact cb_monotone_7bit. Qed.
          clear) is sent only when every pending controller's answer is already
          on its way (pending controllers = answering binds in flight);
      N2  no controller is offered while such a bind is on its way.
-   The known finding bind-crosses-use-cc lies inside its complement.  (Stages
+   (The former known finding bind-crosses-use-cc lay inside its complement; it
+   was repaired - D19, C20_d19_regress - and C20_learn_once now covers the
+   crossing histories too.)  (Stages
    1-3 required "nothing is pending" in N1; C20_nocross_wider_nonvacuous is a
    history admitted now and not before.)  Then, for every
    history over at most 32 distinct controllers and at every event (fresh_run,
@@ -107,32 +109,36 @@ Proof. exact cb_monotone_7bit. Qed.
    Without nocross: "no controller twice" and "never a second address" hold
    for all histories (C20_learn_once); "finds a queued address" does not (after
    a crossing clear() a midi-use-CC may find none: it is then answered with the
-   unchanged mapping, MidiCross.clear_cross_survives). *)
+   unchanged mapping, MidiCross.clear_cross_survives).
+   The predicate is the STRICT one (fresh_run_total, MidiTotal: a step that
+   fails makes it False); every event is admissible ([evok]: mapped addresses in
+   the port table, controller ids >= 0, 7-bit values), so by C20_crash_free no
+   step fails and the claim covers every event of the history. *)
 Theorem C20_nocross_learn_partial : forall ports evs tr fin U,
-  (length U <= 32)%nat -> incl (ccids evs) U -> Forall (fun x => 0 <= x) (ccids evs) ->
+  (length U <= 32)%nat -> incl (ccids evs) U -> Forall (evok ports) evs ->
   run ports world0 evs = (tr, fin) -> nocross evs tr = true ->
-  fresh_run ports world0 evs.
-Proof. exact nocross_fresh. Qed.
+  fresh_run_total ports world0 evs /\ length tr = length evs /\ exists w, fin = Some w.
+Proof. exact nocross_fresh_total. Qed.
 
 Theorem C20_nocross_learn_nonvacuous :
-  exists ports evs tr fin U,
-    (length U <= 32)%nat /\ incl (ccids evs) U /\ Forall (fun x => 0 <= x) (ccids evs) /\
-    run ports world0 evs = (tr, Some fin) /\ nocross evs tr = true /\
+  (length [5; 6] <= 32)%nat /\ incl (ccids tot_history) [5; 6] /\ Forall (evok tot_ports) tot_history /\
+  exists tr fin, run tot_ports world0 tot_history = (tr, Some fin) /\ nocross tot_history tr = true /\
     assigned_targets 5 tr = [(1, true)] /\ assigned_targets 6 tr = [(1, false)].
-Proof. exact nocross_fresh_nonvacuous. Qed.
+Proof. exact total_nonvacuous. Qed.
 
 (* FULL (no side condition on the history - the two halves may exchange their
    messages in every order, binds of map / unMap / clear crossing offers
    included; at most 32 distinct controllers = the pending ring's capacity):
-   at every event (fresh_run0, MidiHandshake) no snapshot on either side holds
+   at every event (fresh_run0_total: pre_ok0 at every event, and no step fails) no snapshot on either side holds
    a controller twice, and each midi-use-CC <id> that reaches the non-realtime
    side is for a controller that occurs in no entry of the current snapshot -
    it is never given a second address.  This is D19's negation; it was false
    before the fix (C20_d19_regress). *)
 Theorem C20_learn_once : forall ports evs U,
-  (length U <= 32)%nat -> incl (ccids evs) U -> Forall (fun x => 0 <= x) (ccids evs) ->
-  fresh_run0 ports world0 evs.
-Proof. exact learn_once. Qed.
+  (length U <= 32)%nat -> incl (ccids evs) U -> Forall (evok ports) evs ->
+  fresh_run0_total ports world0 evs /\
+  exists tr w, run ports world0 evs = (tr, Some w) /\ length tr = length evs.
+Proof. exact learn_once_total. Qed.
 
 (* FULL: after every history that runs to its end the realtime side's pending
    ring (pq_rep: its slots from pos_r on, psize of them) holds exactly the
@@ -170,7 +176,7 @@ Proof. exact nocross_wider_example. Qed.
 (* controllers that are not assigned produce no parameter message: a
    controller with no entry in the realtime side's snapshot yields none
    (which controllers have entries: C20_learn_oldest_partial, C20_unmap_stops,
-   C20_bind_installs; no controller has two: C20_nocross_learn_partial) *)
+   C20_bind_installs; no controller has two, in any history: C20_learn_once) *)
 Theorem C20_unassigned_silent : forall r id v r' m used,
   ~ In id (mids (omap (rstorage r))) ->
   rt_handleCC r id v = Some (r', m, used) -> m = None.
@@ -251,11 +257,12 @@ Proof. exact bind_installs. Qed.
 (* FULL, history level: in every history a parameter message is produced only
    by a controller value whose controller was assigned before - a midi-use-CC
    for it reached the non-realtime side while an address was queued
-   (assigned_after collects exactly those) - and by no other event. *)
+   (assigned_after collects exactly those) - and by no other event.  Strict
+   predicate (silent_run_total: a failing step makes it False), admissible events. *)
 Theorem C20_unassigned_silent_history : forall ports evs U,
-  (length U <= 32)%nat -> incl (ccids evs) U -> Forall (fun x => 0 <= x) (ccids evs) ->
-  silent_run ports world0 [] evs.
-Proof. exact silent_all. Qed.
+  (length U <= 32)%nat -> incl (ccids evs) U -> Forall (evok ports) evs ->
+  silent_run_total ports world0 [] evs.
+Proof. exact silent_all_total. Qed.
 
 (* FULL: refinement against the abstract specification MidiSpec.astep (a finite
    map controller -> (address, coarse|fine), a FIFO of addresses waiting to
